@@ -1,3 +1,45 @@
+//@ prelude
+// ASSUMED stand-in for SnapshotBuilder::finalize (not extractable: it ends in into_snapshot,
+// which Verus rejects; insert_assertions and the ASPA closure are under contract separately).
+pub uninterp spec fn built_under(s: &PayloadSnapshot) -> (RejectedResources, FilterPolicy);
+impl<'a> SnapshotBuilder<'a> {
+    #[verifier::external_body]
+    fn finalize(self, metrics: &mut Metrics) -> (r: PayloadSnapshot)
+        ensures built_under(&r) == (self.rejected, self.unsafe_vrps),
+    { unimplemented!() }
+}
+//@ fn ValidationReport::new
+//@ spec
+    ensures
+        // C08: the unsafe-VRP policy of the report is the configured one
+        res.unsafe_vrps == config.unsafe_vrps,
+        // C09: toggles and limits are the configured ones
+        res.enable_bgpsec == config.enable_bgpsec, res.enable_aspa == config.enable_aspa,
+        res.limit_v4_len == config.limit_v4_len, res.limit_v6_len == config.limit_v6_len,
+        // (log_rejected is deliberately unconstrained: it may only influence logging;
+        // no contract of this unit depends on it)
+//@ fn ValidationReport::into_snapshot
+//@ spec
+    requires
+        // the publication points' metric indexes are valid (as created by the engine)
+        forall|p: PubPoint| #[trigger] pushed(&self.pub_points, p) ==> p.tal_index < old(metrics).tals@.len()
+            && (p.repository_index matches Some(i) ==> i < old(metrics).repositories@.len()),
+    ensures
+        // C08: whatever log_rejected is, the snapshot is built under the rejected resources drained
+        // from THIS report's collection of rejected-CA blocks and under the report's policy
+        rejected_from(&self.rejected, &built_under(&res).0),
+        // C08
+        built_under(&res).1 == self.unsafe_vrps,
+//@ loop 1
+            invariant
+                // C08
+                rejected_from(&self.rejected, &builder.rejected),
+                // C08
+                builder.unsafe_vrps == self.unsafe_vrps,
+                metrics.tals@.len() == old(metrics).tals@.len(),
+                metrics.repositories@.len() == old(metrics).repositories@.len(),
+                forall|p: PubPoint| #[trigger] pushed(&self.pub_points, p) ==> p.tal_index < old(metrics).tals@.len()
+                    && (p.repository_index matches Some(i) ==> i < old(metrics).repositories@.len()),
 //@ fn FilterPolicy::log
 //@ spec
     ensures res == (self is Reject || self is Warn),
@@ -247,6 +289,8 @@
         final(self).rejected == old(self).rejected,
         final(self).unsafe_vrps == old(self).unsafe_vrps,
         final(self).exceptions == old(self).exceptions,
+        final(metrics).tals@.len() == old(metrics).tals@.len(),
+        final(metrics).repositories@.len() == old(metrics).repositories@.len(),
 //@ entry
         let ghost pts = point.origins@;
         let ghost b0 = *self;
@@ -474,10 +518,30 @@
         // (IPv6) rejected set lies in a block that was recorded with the IPv4 (IPv6) tag
         forall|a: u128| res.v4.addrs_spec().contains(a) ==> covered_by_pushed(&self.addrs, true, a),
         forall|a: u128| res.v6.addrs_spec().contains(a) ==> covered_by_pushed(&self.addrs, false, a),
+        // C08: the result is the drain of THIS builder's queue, run until the queue was empty
+        rejected_from(&self, &res),
+//@ beforeloop 1
+        let ghost mut log: Seq<(bool, IpBlock)> = Seq::empty();
 //@ loop 1
             invariant
                 forall|a: u128| v4.addrs_spec().contains(a) ==> covered_by_pushed(&self.addrs, true, a),
                 forall|a: u128| v6.addrs_spec().contains(a) ==> covered_by_pushed(&self.addrs, false, a),
+                // C08: each drained block went into the set of its own family, and nothing else did
+                forall|i: int| 0 <= i < log.len() ==> pushed(&self.addrs, #[trigger] log[i]),
+                v4.addrs_spec() == fam_union(log, true, log.len() as int),
+                v6.addrs_spec() == fam_union(log, false, log.len() as int),
+            ensures
+                observed_empty(&self.addrs),
+//@ loopentry 1
+            proof {
+                let ghost l0 = log;
+                log = log.push((is_v4, block));
+                lemma_fam_union_prefix(l0, log, true, l0.len() as int);
+                lemma_fam_union_prefix(l0, log, false, l0.len() as int);
+            }
+//@ tail
+        assert(drained_sets(&self, v4.addrs_spec(), v6.addrs_spec(), log));
+        assert(drained(&self, v4.addrs_spec(), v6.addrs_spec()));
 //@ fn SnapshotBuilder::new
 //@ spec
     ensures
@@ -668,4 +732,44 @@ proof fn lemma_keys_added_contains(base: Set<RouterKey>, key: &PubRouterKey, exc
     if n > 0 {
         lemma_keys_added_contains(base, key, exceptions, n - 1, k);
     }
+}
+
+// C08: r is the drain of builder b's own queue of rejected blocks, run until the queue was
+// observed empty: family-separated and containing nothing that was not recorded in b.
+// (That the drain then holds EVERY recorded block is the bag property of SegQueue: paper step.)
+spec fn rejected_from(b: &RejectedResourcesBuilder, r: &RejectedResources) -> bool {
+    &&& observed_empty(&b.addrs)
+    &&& drained(b, r.v4.addrs_spec(), r.v6.addrs_spec())
+    &&& forall|a: u128| r.v4.addrs_spec().contains(a) ==> covered_by_pushed(&b.addrs, true, a)
+    &&& forall|a: u128| r.v6.addrs_spec().contains(a) ==> covered_by_pushed(&b.addrs, false, a)
+}
+
+// the addresses of the blocks with family tag `fam` among the first n entries of a drain log
+spec fn fam_union(log: Seq<(bool, IpBlock)>, fam: bool, n: int) -> ISet<u128>
+    decreases n
+{
+    if n <= 0 { ISet::empty() }
+    else if log[n - 1].0 == fam { fam_union(log, fam, n - 1).union(log[n - 1].1.addrs_spec()) }
+    else { fam_union(log, fam, n - 1) }
+}
+
+// C08: `log` is what the drain of b's queue returned (only recorded blocks), and s4 / s6 are, per
+// family, exactly the addresses of the drained blocks of that family
+spec fn drained_sets(b: &RejectedResourcesBuilder, s4: ISet<u128>, s6: ISet<u128>, log: Seq<(bool, IpBlock)>) -> bool {
+    &&& forall|i: int| 0 <= i < log.len() ==> pushed(&b.addrs, #[trigger] log[i])
+    &&& s4 == fam_union(log, true, log.len() as int)
+    &&& s6 == fam_union(log, false, log.len() as int)
+}
+
+// some drain log explains the two sets
+spec fn drained(b: &RejectedResourcesBuilder, s4: ISet<u128>, s6: ISet<u128>) -> bool {
+    exists|log: Seq<(bool, IpBlock)>| #[trigger] drained_sets(b, s4, s6, log)
+}
+
+proof fn lemma_fam_union_prefix(a: Seq<(bool, IpBlock)>, b: Seq<(bool, IpBlock)>, fam: bool, n: int)
+    requires 0 <= n <= a.len(), a.len() <= b.len(), forall|i: int| 0 <= i < a.len() ==> a[i] == b[i],
+    ensures fam_union(a, fam, n) == fam_union(b, fam, n)
+    decreases n
+{
+    if n > 0 { lemma_fam_union_prefix(a, b, fam, n - 1); }
 }
